@@ -10,6 +10,9 @@ CONSTANTS
   MaxRd = 0
   MaxSched = 1
   OwnTime = FALSE
+  Racy = FALSE
+  ResetFirst = TRUE
+  WriteResetFirst = FALSE
 VIEW View
 INVARIANTS PropertyHoldsSequential InternalTimeExact
 CHECK_DEADLOCK FALSE
